@@ -512,7 +512,12 @@ func runC10(r *R) {
 
 	// ---- R6
 	r.Rule("C10-R6", "Extract subtree filter: a stream is emitted only under HasPrefix(k, srcpath+\"/\") ∨ k == srcpath, and the scan visits every stream (no early exit, whole slice)", 2)
-	if fn := r.NeedFn("C10-R6", "("+mfp+".segmentedManifest).manifestTextForPath"); fn != nil {
+	extractFilterRule(r, "C10-R6")
+}
+
+// extractFilterRule: shape of manifest.Extract's multi-stream subtree selection (shared by C10 and C17).
+func extractFilterRule(r *R, rule string) {
+	if fn := r.NeedFn(rule, "("+mfp+".segmentedManifest).manifestTextForPath"); fn != nil {
 		n := 0
 		for _, c := range CallsIn(fn, "("+mfp+".segmentedStream).normalizedText") {
 			// only the one inside a loop over stream names
@@ -535,7 +540,7 @@ func runC10(r *R) {
 					return s == "/"
 				}),
 				EqC("k == srcpath", AnyV, AnyV))
-			r.Check(g, "C10-R6", fn, "emit stream k", c.Pos(), "guarded by path-prefix test", "streams are selected by plain string prefix: extracting ./run1 also picks up ./run10 and ./run1.bak")
+			r.Check(g, rule, fn, "emit stream k", c.Pos(), "guarded by path-prefix test", "streams are selected by plain string prefix: extracting ./run1 also picks up ./run10 and ./run1.bak")
 			// loop exits only by exhaustion, ranging the whole slice
 			body := loopBody(hdr)
 			okExit := true
@@ -556,10 +561,10 @@ func runC10(r *R) {
 					}
 				}
 			})
-			r.Check(okExit && whole, "C10-R6", fn, "scan of all streams", c.Pos(), "loop leaves only by exhaustion and covers the whole list", "the scan over stream names can stop early or starts mid-list: descendants of the extracted directory that sort after an unrelated sibling are silently dropped")
+			r.Check(okExit && whole, rule, fn, "scan of all streams", c.Pos(), "loop leaves only by exhaustion and covers the whole list", "the scan over stream names can stop early or starts mid-list: descendants of the extracted directory that sort after an unrelated sibling are silently dropped")
 		}
 		if n == 0 {
-			r.Bad("C10-R6", fn, "emit stream k", fn.Pos(), "multi-stream emission loop not found")
+			r.Bad(rule, fn, "emit stream k", fn.Pos(), "multi-stream emission loop not found")
 		}
 	}
 }
